@@ -19,7 +19,7 @@
 (*          | "neginf_mid"     a non-finite entry and where                *)
 (*   lab    "na" | "ok" | "zero" | "two" | "half"   pair-label alphabet    *)
 (*   lenrel "na" | "eq" | "shorter" | "longer"  len(labels) vs len(data)   *)
-(*   ncomp  "na" | "none" | "one" | "d" | "zero" | "dplus1"                *)
+(*   ncomp  "na" | "none" | "one" | "d" | "zero" | "dplus1" | "minus1" | "minusd" (= -n_features) *)
 (*   prep   whether the estimator has a preprocessor                       *)
 (***************************************************************************)
 EXTENDS Integers, Sequences, FiniteSets
@@ -100,7 +100,7 @@ Dom(f) == CASE f = "ndim" -> 0..4
             [] f = "bad" -> {"none", "nan_first", "nan_last", "inf_first", "inf_last", "neginf_mid"}
             [] f = "lab" -> {"na", "ok", "zero", "two", "half"}
             [] f = "lenrel" -> {"na", "eq", "shorter", "longer"}
-            [] f = "ncomp" -> {"na", "none", "one", "d", "zero", "dplus1"}
+            [] f = "ncomp" -> {"na", "none", "one", "d", "zero", "dplus1", "minus1", "minusd"}
 
 (* constructive enumeration: the documented form with at most maxDev fields changed *)
 Vary(S) == S \cup {[c EXCEPT ![f] = v] : c \in S, f \in Fields, v \in UNION {Dom(g) : g \in Fields}}
